@@ -1,6 +1,6 @@
 (* C19 -- Diagnostics are complete and never spurious (partial: see MANIFEST level text). *)
 From Rimu Require Import Base Unicode Regex RegexAnalysis RegexParse Str Types Tables Guards State Inline Block
-  Frame FrameBlock FrameInst OptionsLemmas MiscLemmas MoreLemmas Plain TableFacts.
+  Frame FrameBlock FrameInst OptionsLemmas MiscLemmas MoreLemmas Plain TableFacts Rel RelBlock RelApi.
 
 (* every inline computation run by the block layer changes nothing but the diagnostic log *)
 Theorem C19_lift_only_logs : forall A (f : ienv -> I A) s a s', lift f s = Ok (a, s') -> exists l, s' = set_log s l.
@@ -46,6 +46,21 @@ Print Assumptions C19_blank_macro_reported.
 Theorem C19_unterminated_names : unterminated_names = [$"code"; $"comment"; $"division"; $"quote"].
 Proof. exact unterminated_names_fact. Qed.
 Print Assumptions C19_unterminated_names.
+
+(* diagnostics never alter the output: the HTML is the same with and without a callback installed, and so are
+   the diagnostic texts that are generated (only their delivery differs) *)
+Theorem C19_callback_never_alters_output : forall n src o1 o2 s,
+  same_but_callback o1 o2 ->
+  match api_render n src o1 s, api_render n src o2 s with
+  | Ok (h1, s1), Ok (h2, s2) =>
+      h1 = h2 /\ core s1 = core s2 /\
+      exists d1 d2, s_log s1 = d1 ++ s_log s /\ s_log s2 = d2 ++ s_log s /\ map snd d1 = map snd d2
+  | Raise e1, Raise e2 => e1 = e2
+  | Fuel, Fuel => True
+  | _, _ => False
+  end.
+Proof. exact callback_irrelevant. Qed.
+Print Assumptions C19_callback_never_alters_output.
 
 Example C19_ex :
   match api_render 40 ($".." ++ [10] ++ $"{nosuch}") (mkOpts PyNone PyNone PyNone true) S0 with
